@@ -346,6 +346,23 @@ func genC10(r *rand.Rand, t *Trace, thorough bool) {
 			c := s.cfg.p.header(NewCase(800)).B(s.cfg.hv).B(s.cfg.ht).B(s.cfg.hm).I(s.cfg.limit).N(s.cfg.cthr)
 			ops := append([]func(c *Case){}, s.ops...)
 			ops = append(ops, inflight)
+			// file conservation: nothing that was on disk when the operation began may be gone or altered
+			// in an image taken before the new segment is registered (a flush never deletes at all)
+			switch img.label {
+			case "flush.created", "flush.closed", "flush.before_register", "flush.registered", "flush.before_drop",
+				"compact.closed", "compact.before_register", "compact.registered":
+				lost := 0
+				for name, b := range before {
+					if name == "LOCK" {
+						continue
+					}
+					if nb, ok := img.files[name]; !ok || !bytes.Equal(nb, b) {
+						lost++
+					}
+				}
+				lostN := lost
+				ops = append(ops, func(c *Case) { c.N(13).N(lostN) })
+			}
 			ops = append(ops, func(c *Case) {
 				c.N(9).N(1).N(len(lst))
 				for _, l := range lst {
